@@ -82,7 +82,7 @@ func registerABI(e *Engine) {
 		snap := make(structure, 0, len(vals)+1)
 		snap = append(snap, sig)
 		for _, v := range vals {
-			snap = append(snap, deepCopy(v, memo))
+			snap = append(snap, deepCopy(abiNorm(anyType, v), memo))
 		}
 		return []value{blobByte{kind: "abi", v: snap}}
 	}
@@ -294,7 +294,7 @@ func registerABIJSON(e *Engine) {
 		snap := make(structure, 0, len(vals)+1)
 		snap = append(snap, sig)
 		for _, v := range vals {
-			snap = append(snap, deepCopy(v, memo))
+			snap = append(snap, deepCopy(abiNorm(anyType, v), memo))
 		}
 		return []value{blobByte{kind: "abi", v: snap}}
 	}
@@ -357,5 +357,76 @@ func registerABIJSON(e *Engine) {
 		return tuple{[]value{iface{t: abiRawType, v: abiRaw{cells: append([]value(nil), data...)}}}, nilErr()}
 	})
 }
+
+// abiNorm keeps what the ABI encoder looks at: exported struct fields only,
+// pointers followed, dynamic types of interfaces resolved.
+func abiNorm(t types.Type, v value) value {
+	if v == nil || t == nil {
+		return v
+	}
+	if opaqueKind(t) != "" {
+		return v
+	}
+	switch tt := t.Underlying().(type) {
+	case *types.Struct:
+		st, ok := v.(structure)
+		if !ok {
+			return v
+		}
+		out := make(structure, 0, len(st))
+		for i := 0; i < tt.NumFields() && i < len(st); i++ {
+			if !tt.Field(i).Exported() {
+				continue
+			}
+			out = append(out, abiNorm(tt.Field(i).Type(), st[i]))
+		}
+		return out
+	case *types.Pointer:
+		p, ok := v.(*value)
+		if !ok || p == nil {
+			return v
+		}
+		if opaqueKind(tt.Elem()) != "" {
+			return v
+		}
+		n := abiNorm(tt.Elem(), *p)
+		return &n
+	case *types.Slice:
+		xs, ok := v.([]value)
+		if !ok {
+			return v
+		}
+		if b, ok := tt.Elem().Underlying().(*types.Basic); ok && b.Kind() == types.Uint8 {
+			return v
+		}
+		out := make([]value, len(xs))
+		for i := range xs {
+			out[i] = abiNorm(tt.Elem(), xs[i])
+		}
+		return out
+	case *types.Array:
+		xs, ok := v.(array)
+		if !ok {
+			return v
+		}
+		if b, ok := tt.Elem().Underlying().(*types.Basic); ok && b.Kind() == types.Uint8 {
+			return v
+		}
+		out := make(array, len(xs))
+		for i := range xs {
+			out[i] = abiNorm(tt.Elem(), xs[i])
+		}
+		return out
+	case *types.Interface:
+		it, ok := v.(iface)
+		if !ok || it.t == nil {
+			return v
+		}
+		return iface{t: it.t, v: abiNorm(it.t, it.v)}
+	}
+	return v
+}
+
+var anyType types.Type = types.NewInterfaceType(nil, nil)
 
 var abiRawType = types.NewNamed(types.NewTypeName(0, nil, "abiRaw", nil), types.NewStruct(nil, nil), nil)
